@@ -17,7 +17,7 @@ RULE = ("EXHAUSTIVELY all matrices with entries in {-1,0,1} of every shape up to
         "them in both tiers; MGDA and CAGrad on all of them in the thorough tier, in the quick tier on all shapes up to 2x3 plus every 4th "
         "(MGDA) / a seeded 12 % sample (CAGrad) of the 3x3 matrices) "
         "+ hostile matrices (near-antiparallel, stationary, rank-deficient, badly scaled; s >= 2 norm_eps) x non-negative preference "
-        "vectors x max_iters in {1,5,20,100,500} x epsilon in {0,1e-3} x c in [1,3]; every entry of J.A(J) >= -allowance - slop; "
+        "vectors x max_iters in {1,5,20,100,500} (2000, 3000, 5000 on matrices where Frank-Wolfe revisits a vertex) x epsilon in {0,1e-3} x c in [1,3]; every entry of J.A(J) >= -allowance - slop; "
         "non-trivial = the matrix contains a conflict (some pair of rows with negative inner product); distinct = (matrix, aggregator) sha1")
 EXHAUSTIVE_NOTE = {"quick": "all 21 297 {-1,0,1} matrices up to 3x3 for UPGrad, DualProj; MGDA / CAGrad: all up to 2x3 + a sample of 3x3",
                    "thorough": "all 21 297 {-1,0,1} matrices up to 3x3 for UPGrad, DualProj, MGDA and CAGrad"}
@@ -48,13 +48,16 @@ def shards(tier, seed):
     # CAGrad on "small-gradient objectives": row norms spread over up to three decades (a nearly converged auxiliary loss next to a
     # large one): the small rows must not be opposed either
     out += split_shards("cagrad_small_rows", 480 if tier == "quick" else 100000, 4 if tier == "quick" else 8)
+    # "all iteration budgets": thousands of Frank-Wolfe iterations on matrices where the iteration returns to a vertex it has
+    # already made a full step to (a solver that stalls at a sub-optimal point exceeds 8 s^2 / (max_iters + 2) only for such budgets)
+    out += split_shards("mgda_long_budget", 320 if tier == "quick" else 12000, 8 if tier == "quick" else 16)
     return out
 
 
 def requirements(tier):
     return {"ints_matrices_enumerated": 21297, "entries_checked:UPGrad": 20000, "entries_checked:DualProj": 20000, "entries_checked:MGDA": 8000,
             "entries_checked:CAGrad": 1000, "mgda_suboptimality_bound_checked": 3000, "w_conflict_present": 5000, "w_allowance_binding": 20,
-            "w_max_iters=1": 10, "w_max_iters=5": 10, "w_max_iters=20": 10, "w_max_iters=100": 10, "w_max_iters=500": 10, "w_hostile_pref_vector": 200,
+            "w_max_iters=1": 10, "w_max_iters=5": 10, "w_max_iters=20": 10, "w_max_iters=100": 10, "w_max_iters=500": 10, "w_max_iters=2000": 50, "w_max_iters=3000": 50, "w_max_iters=5000": 50, "w_hostile_pref_vector": 200,
             "w_float32": 200}
 
 
@@ -223,6 +226,12 @@ def gen_small_rows(rng, i):
             "class": "small_gradient_objectives"}
 
 
+def gen_long_budget(rng, i):
+    J = M.fw_revisit(rng, int(rng.integers(2, 5)))
+    return {"J": J.tolist(), "dtype": "float64", "agg": {"name": "MGDA", "epsilon": 0.0, "max_iters": [2000, 3000, 5000][int(rng.integers(3))]},
+            "class": "frank_wolfe_revisits_a_vertex"}
+
+
 def check_hostile(case, ctx):
     J = np.array(case["J"], dtype=np.float64).reshape(len(case["J"]), -1)
     conflict = judge(J, case["dtype"], case["agg"], ctx, case, case["class"])
@@ -236,6 +245,8 @@ def check_hostile(case, ctx):
 def run_shard(shard, ctx):
     if shard["kind"] == "ints":
         run_ints(shard, ctx)
+    elif shard["kind"] == "mgda_long_budget":
+        run_cases(ctx, shard_rng(ctx.seed, ID, ctx.shard_index), shard["n"], gen_long_budget, check_hostile)
     elif shard["kind"] == "cagrad_small_rows":
         run_cases(ctx, shard_rng(ctx.seed, ID, ctx.shard_index), shard["n"], gen_small_rows, check_hostile)
     else:
